@@ -27,7 +27,7 @@ Sample(n, s2, xq, yq, z, c, cj, ci) ==
    LET ka == Z2S(Zr(cj, ci), 0 - z)
        cs == Corners(xq, yq, Q, c)
        nv(r) == IF FaceOpen(G, c, r.j, r.i)
-                THEN ka.an * Node2(n, s2, ka.K - 2, r.j, r.i, c) + (ka.ad - ka.an) * Node2(n, s2, ka.K - 1, r.j, r.i, c)
+                THEN ka.an * Node2(n, s2, Lower(ka) - 1, r.j, r.i, c) + (ka.ad - ka.an) * Node2(n, s2, Upper(ka) - 1, r.j, r.i, c)
                 ELSE 0
    IN <<cs[1].w * nv(cs[1]) + cs[2].w * nv(cs[2]) + cs[3].w * nv(cs[3]) + cs[4].w * nv(cs[4]), Q * Q * ka.ad * 2>>
 Sign == IF S.rev THEN -1 ELSE 1
@@ -40,7 +40,7 @@ ScalOK(e, pn) ==
    \E cj \in OwnCells(e.y[pn], Q), ci \in OwnCells(e.x[pn], Q) :
       LET ka == Z2S(Zr(cj, ci), 0 - e.z[pn])
           f  == S.layout.fidx[FloorIdx(S.layout.fs, e.step)]
-      IN e.temp[pn] \in { Scal(f, ka.K - 1, cj, ci), Scal(f, ka.K - 2, cj, ci) }
+      IN e.temp[pn] \in { Scal(f, Upper(ka) - 1, cj, ci), Scal(f, Lower(ka) - 1, cj, ci) }
 
 ValidSetup(s) == /\ Len(s.layout.fs) >= 2 /\ Len(s.layout.fidx) = Len(s.layout.fs)
                  /\ \A i \in 1..(Len(s.layout.fs) - 1) : s.layout.fs[i] < s.layout.fs[i + 1]
